@@ -760,6 +760,10 @@ func SexpToGoStructs(
 			// already did it. Return alreadyGoStruct.
 			cacheHit = true
 			vo := reflect.ValueOf(alreadyGoStruct).Elem()
+			if vo.Kind() == reflect.Interface {
+				// first seen through an interface-typed field: share the object it holds.
+				vo = vo.Elem()
+			}
 			targVa.Elem().Set(vo)
 
 			return target, nil
